@@ -451,6 +451,8 @@ def cls_index(ex, o):
         for c in conds:
             s_ = z3.Solver()
             s_.set('timeout', 2000)
+            s_.set('smt.mbqi', False)  # only `unsat` matters here; model-based instantiation can ignore the time limit
+            s_.set('rlimit', 20000000)
             for p in ex.pc:
                 s_.add(p)
             s_.add(c)
@@ -1137,6 +1139,8 @@ def _quick(pcs, goal, timeout_ms, seed):
         sq = z3.Solver()
         sq.set('timeout', min(budget, int(timeout_ms)))
         sq.set('random_seed', seed)
+        sq.set('smt.mbqi', False)  # a proof attempt: only `unsat` is used
+        sq.set('rlimit', 40000000)
         for p in pcx:
             sq.add(p)
         sq.add(z3.Not(goal))
@@ -1177,6 +1181,7 @@ def discharge(ob, timeout_ms=20000, seed=0, both=False):
     sq = z3.Solver()
     sq.set('timeout', min(int(timeout_ms), 6000))
     sq.set('random_seed', seed)
+    sq.set('rlimit', 60000000)
     for p in pc2:
         sq.add(p)
     sq.add(z3.Not(ob.goal))
@@ -1188,6 +1193,8 @@ def discharge(ob, timeout_ms=20000, seed=0, both=False):
         sf = z3.Solver()
         sf.set('timeout', min(int(timeout_ms), 8000))
         sf.set('random_seed', seed)
+        sf.set('smt.mbqi', False)  # only `unsat` (the counter-model was ill typed) matters
+        sf.set('rlimit', 60000000)
         for p in ob.pc:
             sf.add(p)
         sf.add(z3.Not(ob.goal))
